@@ -7,6 +7,7 @@
 # for license details.
 """
 """
+from itertools import islice
 
 __all__ = ('Cache', 'trim_cache') 
 
@@ -38,5 +39,6 @@ class Cache:
     
 def trim_cache(cache): # pragma: no cover
     if cache.__len__() > 500: 
-        iter = cache.__iter__()
-        for i in 100: del cache[iter.__next__()]
+        # Remove the 100 oldest entries (dicts iterate in insertion order);
+        # materialize the keys first so the dict is not resized while iterating.
+        for key in tuple(islice(cache, 100)): del cache[key]
